@@ -148,6 +148,17 @@ def obj_contains(ex, ptr, c, item, node):
 
 
 def opaque_contains(ex, cont, item, node):
+    if cont.cls == 'NocaseDict':
+        # membership in a NocaseDict known only by reference: an uninterpreted predicate of (dictionary, lower(key));
+        # sound only while the function under contract does not modify that dictionary (stores / deletes on an
+        # opaque NocaseDict are outside the model and make the function out of reach)
+        item = ex.res(item)
+        if not isinstance(item, VStr):
+            ex.limit('NocaseDict membership of a non-string', node)
+        has = z3.Function('nd_has', RefSort, z3.StringSort(), z3.BoolSort())
+        lower = z3.Function('str_lower', z3.StringSort(), z3.StringSort())
+        ex.used_assumptions.add('A-CIMOBJ: NocaseDict membership is a function of (dictionary, lower-cased key)')
+        return has(cont.t, lower(item.t))
     ex.limit(f'`in` on opaque {cont}', node)
 
 
